@@ -697,7 +697,7 @@ def contract_check(before, after):
     return True, None
 
 
-def contract_specific(op, ret, sig_before, geo, ncol_before, names_before):
+def contract_specific(op, ret, sig_before, geo, ncol_before, names_before, sel_names=()):
     k = op[0]
     out = []
     names_after = set(c.name for c in geo.columnlist)
@@ -711,6 +711,12 @@ def contract_specific(op, ret, sig_before, geo, ncol_before, names_before):
     elif k == 'rename-perm':
         if names_after != names_before or len(geo.column) != ncol_before:
             out.append('after permuting names: names %r, lookup keys %r, expected the same %d names' % (sorted(names_after), sorted(geo.column), ncol_before))
+    elif k == 'decompose-all':
+        left = [c.name for c in geo.columnlist if len(c.node) > 4]
+        if left: out.append('decompose_columns() left %d columns with more than 4 sides: %r' % (len(left), left[:5]))
+    elif k == 'decompose':
+        left = [c.name for c in geo.columnlist if len(c.node) > 4 and c.name in sel_names]
+        if left: out.append('decompose_columns(selection) left selected columns with more than 4 sides: %r' % (left[:5],))
     elif k == 'reduce':
         if len(geo.columnlist) != len(op[1]): out.append('reduce to %d columns left %d' % (len(op[1]), len(geo.columnlist)))
     elif k == 'delete':
@@ -811,6 +817,7 @@ def step(geo, op, before, base, hist, calls, rec):
     ncol = len(geo.columnlist)
     names_before = set(c.name for c in geo.columnlist)
     sig = signature(geo) if k == 'split' else None
+    sel_names = set(canon(geo)[i].name for i in op[1]) if k == 'decompose' else ()
     h = hist + [op]
     rec.count('completes')
     try:
@@ -847,7 +854,7 @@ def step(geo, op, before, base, hist, calls, rec):
         left = dict((w, x[:4]) for w, x in after['mesh'].items() if x and w != 'nonmanifold')
         if left: rec.fail('mesh-left', k, base, h, calls, 'check(fix=True) leaves %r' % (left,))
     rec.count('specific')
-    ok4, out = contract_specific(op, ret, sig, geo, ncol, names_before)
+    ok4, out = contract_specific(op, ret, sig, geo, ncol, names_before, sel_names)
     if not ok4: rec.fail('result', k, base, h, calls, '; '.join(out))
     blocking = [c for c, _ in after['wf'] if c not in NONBLOCKING]
     finite = all(c.surface is None or np.isfinite(c.surface) for c in geo.columnlist)
